@@ -95,10 +95,8 @@ Proof. unfold in_image, user_image, bn, gd. apply andb_true_iff. Qed.
 Theorem strong_task_problem_ok fuel t pbs pb : strong_task_ok t = true ->
   strong_decompose_full_fuel fuel t = SOk pbs -> In pb pbs -> task_problem_ok pb.
 Proof.
-  unfold strong_task_ok. intros H E Hpb. apply andb_true_iff in H. destruct H as [H Hr].
-  apply andb_true_iff in H. destruct H as [Hrep Hl].
-  assert (Hrep' : st_repr t = ReprTauStar) by (destruct (st_repr t); [discriminate|reflexivity]).
-  destruct (strong_full_sentences fuel t pbs pb Hrep' (program_named_ok _ Hl) (program_named_ok _ Hr) E Hpb)
+  unfold strong_task_ok. intros H E Hpb. apply andb_true_iff in H. destruct H as [Hl Hr].
+  destruct (strong_full_sentences fuel t pbs pb (program_named_ok _ Hl) (program_named_ok _ Hr) E Hpb)
     as [raw [Hin Hs]].
   exists raw, (st_decomposition t), pb. auto.
 Qed.
@@ -212,15 +210,4 @@ Proof.
   intros H E Hpb Hid Hd Hr. pose proof (ext_task_problem_ok fuel t w pbs pb H E Hpb) as Hok. split.
   - exact (task_problem_preamble pb Hok txt tp Hid Hd Hr).
   - exact (task_problem_text_meaning pb Hok txt tp Hid Hd Hr).
-Qed.
-
-(* mu: conditional on the representation step *)
-Theorem strong_task_text_partial fuel t pbs pb :
-  repr_sentences t (st_left t) -> repr_sentences t (st_right t) ->
-  strong_decompose_full_fuel fuel t = SOk pbs -> In pb pbs -> ~ (ident_ok pb = false) ->
-  exists txt tp, problem_display pb = Some txt /\ read_problem txt = Some tp /\ wt_problem tp = true.
-Proof.
-  intros Hl Hr E Hpb. apply task_problem_text.
-  destruct (strong_full_sentences_partial fuel t pbs pb Hl Hr E Hpb) as [raw [Hin Hs]].
-  exists raw, (st_decomposition t), pb. auto.
 Qed.
